@@ -59,3 +59,56 @@ def run_c12(tier, seed):
                            "execution of brc20_commitToDatabase / brc20_initialise as a notification is unobservable from outside"],
                           time.time() - t0, len(v.new))
     return rc
+
+
+def run_c20(tier, seed):
+    import concurrent.futures
+    t0 = time.time()
+    common.build_harness()
+    v = Verdict("C20")
+    cfg = "SPECIFICATION Spec\nINVARIANTS StartsOnlyIfSame IdenticalAlwaysReopens\nCHECK_DEADLOCK FALSE\n"
+    cases, r = tlc_cases("ConfigGate.tla", cfg, "configgate", None)
+    if r["violated"]:
+        v.report("model:" + r["violated"], "ConfigGate.tla violates " + r["violated"], {"tlc": common.tlc_tail(r, 60)})
+    elif not r["ok"]:
+        raise ToolError("TLC failed on ConfigGate:\n" + common.tlc_tail(r))
+    if tier == "quick":
+        # the whole table of (creator, opener) pairs and every tamper on a matching pair; tampers on mismatching pairs
+        # (which must fail for two reasons) are left to the thorough tier
+        cases = [c for c in cases if c["tamper"] == "none" or (c["cnet"] == c["onet"] and c["ctraces"] == c["otraces"])]
+    shards = 8
+    chunks = [cases[i::shards] for i in range(shards)]
+
+    def one(k):
+        cp = os.path.join(OUT, "cfg_cases_%d.json" % k)
+        rp = os.path.join(OUT, "cfg_report_%d.json" % k)
+        json.dump(chunks[k], open(cp, "w"))
+        p = common.run_vh(["cfggate", cp, rp], timeout=3000)
+        if p.returncode == 2:
+            raise ToolError("vh cfggate failed: " + p.stderr[-2000:])
+        return json.load(open(rp))
+
+    tot = {"cases": 0, "started": 0, "failed": 0}
+    samples = []
+    with concurrent.futures.ThreadPoolExecutor(max_workers=shards) as ex:
+        for rep in ex.map(one, range(shards)):
+            for k in tot:
+                tot[k] += rep[k]
+            samples += rep["samples"][:1]
+            for viol in rep["violations"]:
+                c = viol["case"]
+                sig = "cfg:%s:%s/%s->%s/%s:%s:%s" % (c["kind"], c["cnet"], c["ctraces"], c["onet"], c["otraces"], c["tamper"], c["fill"])
+                v.report(sig, "%s expected %s, observed %s (%s)" % (sig, c["expect"], viol.get("outcome"), viol.get("detail", viol.get("why", ""))[:200]),
+                         {"kind": "cfg", "case": c, "observed": viol})
+    cov = {"states": max(1, r["distinct"]), "transitions": max(1, r["generated"]),
+           "traces_validated_against_impl": tot["cases"], "exhaustive": tier == "thorough",
+           "samples": samples[:4] or ["none"], "started": tot["started"], "failed_to_start": tot["failed"],
+           "explanation": "directory state x opening configuration table replayed through the public start(); on success the "
+                          "state digest must equal the one recorded before shutdown",
+           "checker_cmd": "tlc ConfigGate.tla ; vh cfggate"}
+    rc = v.finish()
+    common.write_evidence("C20", tier, seed, "model_checking", cov,
+                          ["tampering is done by writing the config RocksDB directly (key/value = u32 length + utf8)",
+                           "protocol/db version mismatch is produced by altering the recorded rows, not by rebuilding the crate"],
+                          time.time() - t0, len(v.new))
+    return rc
